@@ -15,7 +15,10 @@
 (*   PROP:hard_ttl  a get that did not read the backing store in its final   *)
 (*                  segment returned a value whose cache entry (the one      *)
 (*                  present when the get was issued or when it returned) was *)
-(*                  older than the hard TTL when the get was issued.         *)
+(*                  older than the hard TTL when the get was issued; the age *)
+(*                  is counted from the instant the entry was installed (put *)
+(*                  landed / backing store read), not from the code's own    *)
+(*                  cached_at field (that field is compared as drift only).  *)
 (* Verdict lines: <<"V", id, verdict, pos, taint>>, <<"D", id, "MODEL:..", pos>> *)
 (* taint {1}: the failing get took the coalesced path of the known deviation *)
 (* "coalesced_miss_returns_none" (returned None for a key the backing store  *)
@@ -31,7 +34,11 @@ VARIABLES ti, l, acc
 tvars == <<ti, l, acc>>
 
 GT(T) == [K |-> T.K, cap |-> T.cap, soft |-> T.soft, hard |-> T.hard, dev |-> Dev]
+\* born[k]: tick at which the entry now cached for k was installed, derived from the observed operations only
+\* (a put that landed, or a get / refresh whose final segment read the backing store), independent of the
+\* cached_at field the code maintains
 Acc0(T) == [s |-> InitT(GT(T), T.pre), h |-> InitHist(GT(T), T.pre), opsf |-> <<>>, iss |-> <<>>, br |-> 0,
+            born |-> [k \in 1..T.K |-> 0],
             prop |-> <<"", 0, {}>>, drift |-> <<"", 0>>]
 Flags(f) == { k \in 1..Len(f) : f[k] = 1 }
 
@@ -64,14 +71,15 @@ StepF(T, ll, a) ==
         d == Diff(o, r)
         \* <<issue position, issue tick, value and cached_at of the entry present at issue>>
         is == IF r.seg = 1 \/ r.o \notin DOMAIN a.iss
-              THEN <<ll, r.t, IF r.k > 0 THEN s.val[r.k] ELSE 0, IF r.k > 0 THEN s.at[r.k] ELSE 0>>
+              THEN <<ll, r.t, IF r.k > 0 THEN s.val[r.k] ELSE 0, IF r.k > 0 THEN a.born[r.k] ELSE 0>>
               ELSE a.iss[r.o]
         h1 == IF r.seg = 1 THEN HStart(a.h, r.kind, r.k, r.v, ll) ELSE a.h
         h2 == IF r.last THEN HEnd(h1, r.kind, r.k, is[1], ll) ELSE h1
         cached == { k \in 1..T.K : r.val[k] # 0 }
         fromcache == r.kind = "get" /\ r.last /\ r.ret # 0 /\ r.br = a.br
         ttlok == \/ (is[3] = r.ret /\ is[2] - is[4] <= T.hard)
-                 \/ (s.val[r.k] = r.ret /\ is[2] - s.at[r.k] <= T.hard)
+                 \/ (s.val[r.k] = r.ret /\ is[2] - a.born[r.k] <= T.hard)
+        installs == r.last /\ r.k > 0 /\ (r.kind = "put" \/ (r.kind \in {"get", "refresh"} /\ r.br > a.br))
         coalnone == op0.kind = "get" /\ op0.st = "coal" /\ r.last /\ r.ret = 0 /\ s.val[r.k] = 0
                     /\ s.back[r.k] # 0 /\ DC \in Dev /\ d = ""
         bad == IF a.prop[1] # "" THEN ""
@@ -82,6 +90,7 @@ StepF(T, ll, a) ==
                ELSE ""
         ns == [o.s EXCEPT !.val = r.val, !.at = r.at, !.ord = r.ord, !.rfr = Flags(r.rfr), !.back = r.back]
     IN [s |-> ns, h |-> h2, br |-> r.br,
+        born |-> IF installs /\ r.val[r.k] # 0 THEN [a.born EXCEPT ![r.k] = r.t] ELSE a.born,
         iss |-> IF r.last THEN [x \in DOMAIN a.iss \ {r.o} |-> a.iss[x]] ELSE (r.o :> is) @@ a.iss,
         opsf |-> IF r.last THEN [x \in DOMAIN a.opsf \ {r.o} |-> a.opsf[x]] ELSE (r.o :> o.op) @@ a.opsf,
         prop |-> IF bad # "" THEN <<bad, ll, IF bad = "PROP:stale_read" /\ coalnone THEN {1} ELSE {}>> ELSE a.prop,
